@@ -56,6 +56,10 @@ func c14Word(c c14Case, vars map[string]string) (ast.Word, string, error) {
 		var w ast.Word
 		for _, s := range c.Segs {
 			switch {
+			case s.Expr != "" && s.Quoted:
+				w = append(w, &ast.Quote{Tok: `"`, Value: ast.Word{&ast.ArithExp{Expr: ast.Word{&ast.Lit{Value: s.Expr}}}}})
+			case s.Expr != "":
+				w = append(w, &ast.ArithExp{Expr: ast.Word{&ast.Lit{Value: s.Expr}}})
 			case !s.Quoted:
 				w = append(w, &ast.Lit{Value: s.Text})
 			case s.Text == "":
@@ -73,6 +77,10 @@ func c14Word(c c14Case, vars map[string]string) (ast.Word, string, error) {
 			return !(r >= 'a' && r <= 'z' || r == ',' || r == ':' || r > 127)
 		}) == -1
 		switch {
+		case s.Expr != "" && s.Quoted:
+			b.WriteString(`"$((` + s.Expr + `))"`)
+		case s.Expr != "":
+			b.WriteString(`$((` + s.Expr + `))`)
 		case !s.Quoted && plain && i%2 == 0:
 			b.WriteString(s.Text)
 		case !s.Quoted:
@@ -148,6 +156,9 @@ func checkC14(c c14Case) error {
 func segString(segs []ref.Seg) string {
 	var b strings.Builder
 	for _, s := range segs {
+		if s.Expr != "" {
+			fmt.Fprintf(&b, "A(%s)", s.Expr)
+		}
 		if s.Quoted {
 			fmt.Fprintf(&b, "Q%q", s.Text)
 		} else {
@@ -264,6 +275,42 @@ func TestC14(t *testing.T) {
 	rec(nil)
 	st.Exhaustive = true
 	st.Note("exhaustive: all words of <= %d segments over {ordinary, IFS white space, IFS non-white-space, non-IFS white space, quoted ordinary, quoted IFS characters, empty quotes} x %d IFS settings (unset, default, ' ,', ',', ':', empty, multi-byte, two non-white-space, newline+comma, an invalid byte), word built as AST; a quarter of them also written as source text and parsed", maxn, len(c14Cfgs))
+
+	// (a') results of arithmetic expansions are text of the word like any
+	// other: unquoted ones are cut at IFS characters (digits, the minus sign)
+	if sh == 0 {
+		ariths := []ref.Seg{{Text: "105", Expr: "100+5"}, {Text: "-105", Expr: "0-105"}, {Text: "1005", Expr: "1005"}, {Text: "0", Expr: "5-5"}, {Text: "50", Expr: "5*10"}}
+		others := []ref.Seg{{Text: "a"}, {Text: "0"}, {Text: "x0y", Quoted: true}, {Quoted: true}, {Text: " "}}
+		k := 0
+		for _, ifs := range []string{"0", "5", "-0", " 0", "1", " \t\n"} {
+			for _, a := range ariths {
+				for _, q := range []bool{false, true} {
+					a.Quoted = q
+					for _, pre := range append([]ref.Seg{{}}, others...) {
+						for _, post := range append([]ref.Seg{{}}, others...) {
+							for _, via := range []string{"ast", "parse"} {
+								c := mkC14(ifs, true, via)
+								if pre.Text != "" || pre.Quoted {
+									c.Segs = append(c.Segs, pre)
+								}
+								c.Segs = append(c.Segs, a)
+								if post.Text != "" || post.Quoted {
+									c.Segs = append(c.Segs, post)
+								}
+								if err := checkC14(c); err != nil {
+									fail(t, "C14", "split", c, "%v", err)
+								}
+								st.EvalN(1, 1)
+								k++
+							}
+						}
+					}
+				}
+			}
+		}
+		st.ClassN("arithmetic_results", int64(k))
+		st.Note("%d words with an arithmetic expansion (unquoted / double-quoted, alone or between other segments) under IFS values that contain digits or the minus sign", k)
+	}
 
 	// (b) random longer words
 	n := 1000000
